@@ -219,6 +219,7 @@ def compare(ctx, w, a, b_, fails, label, g=None):
             fails.append(Failure("oracle", None, "[%s] record %d: != does not negate ==" % (label, i), case))
         w.rec_eq(w.rec_at(a, i), w.rec_at(b_, i))
         w.rec_eq(w.rec_at(b_, i), w.rec_at(a, i))
+        w.rec_hash(w.rec_at(a, i), w.rec_at(b_, i))
 
 
 def make_case(ctx, g):
